@@ -1,6 +1,6 @@
 SPECIFICATION PSpec
 CONSTANTS
-  NCls = 16
+  NCls = 17
   D = 7
 CONSTRAINT Emit
 INVARIANT PoolUnchanged
